@@ -118,46 +118,60 @@ def code_of(fn: Any) -> types.CodeType:
     return fn.__code__
 
 
-def default_targets() -> list[types.CodeType]:
-    """Code objects of the patch stack and of everything that owns restorable
-    state on the to_onnx path."""
-    from jax2onnx import user_interface as ui
-    from jax2onnx.converter import conversion_api as ca
-    from jax2onnx.converter import lowering_dispatch as ld
-    from jax2onnx.plugins import _patching as pt
-    from jax2onnx.plugins import plugin_system as ps
+TARGET_MODULES = (
+    "jax2onnx.plugins._patching",
+    "jax2onnx.plugins.plugin_system",
+    "jax2onnx.converter.conversion_api",
+    "jax2onnx.converter.lowering_dispatch",
+    "jax2onnx.user_interface",
+)
 
-    fns = [
-        pt.apply_patches,
-        pt._resolve,
-        ps.apply_monkey_patches,
-        ps._iter_patch_specs,
-        vars(ps.PrimitiveLeafPlugin)["plugin_binding"],
-        ps._activate_full_plugin_worlds_for_body,
-        ps.FunctionPlugin._make_patch_fn,
-        ps.FunctionPlugin._lower_and_call,
-        ps.FunctionPlugin.patch_info,
-        ca._activate_plugin_worlds,
-        ca._force_jax_x64,
-        ca._trace_to_jaxpr,
-        ca.to_onnx,
-        ca._build_and_finalize_ir_model,
-        ca._optimize_graph_with_failure_policy,
-        ld.lower_jaxpr_with_plugins,
-        ld.lower_equation_with_plugin,
-        ld.primitive_recording_scope,
-        ld.current_eqn_scope,
-        ld.staged_lowering_metadata,
-        ui._temporary_x64,
-        ui.to_onnx,
-    ]
+
+def default_targets() -> list[types.CodeType]:
+    """Code objects of EVERY function and method defined in the modules that
+    own restorable state on the to_onnx path (patch stack, activation, flag
+    helpers, conversion driver, lowering dispatch, user entry point).  Taking
+    whole modules instead of a list of names keeps the fault model intact when
+    the code is refactored into new helpers."""
+    import importlib
+
     codes: list[types.CodeType] = []
     seen: set[int] = set()
-    for f in fns:
-        for c in nested_codes(code_of(f)):
-            if id(c) not in seen:
-                seen.add(id(c))
-                codes.append(c)
+
+    def add(fn: Any, modname: str) -> None:
+        try:
+            c = code_of(fn)
+        except AttributeError:
+            return
+        if not isinstance(c, types.CodeType):
+            return
+        for cc in nested_codes(c):
+            if id(cc) not in seen:
+                seen.add(id(cc))
+                codes.append(cc)
+
+    for modname in TARGET_MODULES:
+        mod = importlib.import_module(modname)
+        modfile = getattr(mod, "__file__", None)
+        for name, obj in list(vars(mod).items()):
+            if isinstance(obj, type):
+                if getattr(obj, "__module__", None) != modname:
+                    continue
+                for _, member in list(vars(obj).items()):
+                    if isinstance(member, (types.FunctionType, classmethod, staticmethod, property)):
+                        if isinstance(member, property):
+                            for f in (member.fget, member.fset, member.fdel):
+                                if f is not None:
+                                    add(f, modname)
+                        else:
+                            add(member, modname)
+            elif isinstance(obj, types.FunctionType) or hasattr(obj, "__wrapped__"):
+                try:
+                    c = code_of(obj)
+                except AttributeError:
+                    continue
+                if getattr(c, "co_filename", None) == modfile:
+                    add(obj, modname)
     return codes
 
 
